@@ -105,6 +105,17 @@ fn main() {
         let (ok, detail) = rerender_after_failures(&env, "page", "c", 3);
         out.push(serde_json::json!({"scenario": "block_call_fails", "function": "call_block", "ok": ok, "detail": detail}));
     }
+    // --- a macro body fails: the caller's context is back in place afterwards
+    {
+        let env = env_with(&[("page", "{% macro m() %}X{{ boom() }}{% endmacro %}{% set outer = 'O' %}{% block c %}[{{ outer }}{{ m() }}]{% endblock %}")]);
+        for (n, fails) in [("macro_body_fails_once", 1usize), ("macro_body_fails_3_times", 3)] {
+            let (ok, detail) = rerender_after_failures(&env, "page", "c", fails);
+            out.push(serde_json::json!({"scenario": n, "function": "eval_macro", "ok": ok, "detail": detail}));
+        }
+        let env = env_with(&[("page", "{% macro m() %}{{ caller() }}{% endmacro %}{% set outer = 'O' %}{% block c %}[{{ outer }}{% call m() %}{{ boom() }}{% endcall %}]{% endblock %}")]);
+        let (ok, detail) = rerender_after_failures(&env, "page", "c", 2);
+        out.push(serde_json::json!({"scenario": "call_block_body_fails", "function": "eval_macro", "ok": ok, "detail": detail}));
+    }
     // --- an included template runs with ITS OWN block table and loaded-template set, also when it defines no block itself
     {
         FAIL.store(false, Ordering::SeqCst);
